@@ -37,6 +37,7 @@ var ssoDims = []dim{
 	{"acsurl", []string{"absent", "foreign"}},
 	{"embedded", []string{"none", "valid", "valid-nokeyinfo", "valid-foreignkeyinfo", "tampered", "foreign-key", "empty-value", "keyinfo-nox509", "valid-wrappedcert"}},
 	{"style", []string{"0", "1", "2", "3"}},
+	{"escstyle", []string{"go", "lowerhex", "pct20"}},
 	{"reqsigned", []string{"absent", "false", "0", "true", "1"}},
 	{"certs", []string{"one-rsa", "none", "one-ec", "two-rsa", "one-rsa-encryption"}},
 	{"acs", []string{"post+redirect", "post", "redirect", "artifact", "none", "redirect-default-post", "paos+unknown", "no-spsso"}},
@@ -419,10 +420,17 @@ func runSso(c Case) *SsoRun {
 	if signAlg != algRSASHA1 && signAlg != algRSASHA256 {
 		signAlg = algRSASHA256
 	}
+	esc := 0
+	switch c["escstyle"] {
+	case "lowerhex":
+		esc = 1
+	case "pct20":
+		esc = 2
+	}
 	sig := ""
 	switch c["sig"] {
 	case "valid":
-		sig = cachedRedirSig(spKeys, payload, relay, signAlg, 0)
+		sig = cachedRedirSig(spKeys, payload, relay, signAlg, esc)
 	case "other-relay":
 		sig = cachedRedirSig(spKeys, payload, relay+"x", signAlg, 0)
 	case "other-request":
@@ -432,7 +440,7 @@ func runSso(c Case) *SsoRun {
 	case "notb64":
 		sig = "%%%"
 	case "foreign-key":
-		sig = cachedRedirSig(foreignKeys, payload, relay, signAlg, 0)
+		sig = cachedRedirSig(foreignKeys, payload, relay, signAlg, esc)
 	}
 	f.ParamSigPresent = sig != ""
 	f.SigAlgWithoutSig = sigAlg != "" && sig == ""
@@ -461,7 +469,15 @@ func runSso(c Case) *SsoRun {
 	switch c["transport"] {
 	case "get-query":
 		form.Set("SAMLRequest", payload)
-		req.Method, req.Query = "GET", form.Encode()
+		req.Method = "GET"
+		// parameters in the order and with the percent-encoding style the simulated SP signed
+		var parts []string
+		for _, k := range []string{"SAMLRequest", "RelayState", "SigAlg", "Signature", "SAMLEncoding"} {
+			if vs, ok := form[k]; ok {
+				parts = append(parts, k+"="+queryEsc(vs[0], esc))
+			}
+		}
+		req.Query = strings.Join(parts, "&")
 	case "post-body":
 		form.Set("SAMLRequest", payload)
 		req.Method, req.Body, req.CType = "POST", form.Encode(), "application/x-www-form-urlencoded"
